@@ -60,6 +60,18 @@ Qed.
 Lemma list_mul_repeat' {A} (x : A) (n : nat) : py_list_mul [x] (Z.of_nat n) = repeat x n.
 Proof. unfold py_list_mul. rewrite Nat2Z.id. induction n as [|n IH]; [reflexivity|]. cbn [repeat concat app]. rewrite IH. reflexivity. Qed.
 
+(* the block count of a parameter is also the difference of its pair of block indices *)
+Lemma pairwise_indices_diff (nbs : list nat) :
+  Forall2 (fun nb (p : Z * Z) => snd p - fst p = Z.of_nat nb) nbs
+          (map (fun p : nat * nat => (Z.of_nat (fst p), Z.of_nat (snd p))) (Masks.generate_pairwise_indices nbs)).
+Proof.
+  unfold Masks.generate_pairwise_indices. generalize 0%nat as off. induction nbs as [|nb nbs IH]; intro off; [constructor|].
+  rewrite pairwise_accumulate_cons. cbn [map]. constructor; [cbn [fst snd]; lia|apply IH].
+Qed.
+
+Lemma if_same {A} (c : bool) (x : A) : (if c then x else x) = x.
+Proof. destruct c; reflexivity. Qed.
+
 Theorem gen_global_grad_selector_eq_model :
   forall (grads : list (option Z)) (dims : list (list Z)) (nbs : list nat) (dsel : list bool),
   length dims = length grads -> length nbs = length grads ->
@@ -69,22 +81,30 @@ Proof.
   intros grads dims nbs dsel Hd Hn. unfold GenC04.global_grad_selector_of. cbv zeta.
   rewrite gen_generate_pairwise_indices_eq_model, bind_ret.
   set (pw := map (fun p : nat * nat => (Z.of_nat (fst p), Z.of_nat (snd p))) (Masks.generate_pairwise_indices nbs)).
+  assert (Hdiff : Forall2 (fun nb (p : Z * Z) => snd p - fst p = Z.of_nat nb) nbs pw) by apply pairwise_indices_diff.
   assert (Hpw : length pw = length grads).
   { unfold pw. rewrite map_length. rewrite (proj1 (generate_pairwise_indices_spec nbs)). exact Hn. }
-  rewrite (zip_strict_combine grads dims) by lia. rewrite bind_ret.
-  rewrite zip_strict_combine by (rewrite combine_length, map_length; lia). rewrite bind_ret.
-  rewrite zip_strict_combine by (rewrite !combine_length, map_length; lia). rewrite bind_ret.
+  repeat (rewrite zip_strict_combine by (rewrite ?combine_length, ?map_length; lia); rewrite bind_ret).
   match goal with |- context[py_for ?b _ _] => set (body := b) end.
-  assert (Hloop : forall grads dims nbs pw (acc : list bool) (lm : list tensor),
-            length dims = length grads -> length nbs = length grads -> length pw = length grads ->
-            py_for body (combine (combine (combine grads dims) (map Z.of_nat nbs)) pw) (acc, lm)
-            = Ret (acc ++ Masks.expand (map (fun g => negb (py_is_none g)) grads) nbs, lm)).
-  { clear. induction grads as [|g grads IH]; intros [|d dims] [|nb nbs] [|p pw] acc lm H1 H2 H3; try discriminate.
-    - cbn [combine map py_for Masks.expand]. rewrite app_nil_r. reflexivity.
-    - cbn [combine map py_for Masks.expand]. unfold body at 1. destruct p as [b0 b1]. cbv zeta. rewrite list_mul_repeat'.
-      assert (E : forall c : bool, (if c then Ret (acc ++ repeat (negb (py_is_none g)) nb, lm) else Ret (acc ++ repeat (negb (py_is_none g)) nb, lm))
-                                   = Ret (acc ++ repeat (negb (py_is_none g)) nb, lm)) by (intros []; reflexivity).
-      rewrite E. cbn [bind]. rewrite IH by (cbn [length] in *; lia). rewrite <- app_assoc. reflexivity. }
-  rewrite Hloop by assumption. reflexivity.
+  (* the loop zips (grad, merged_dims, num_blocks, (first, end)) or, with the count read off the indices, (grad, merged_dims, (first, end)) *)
+  first
+  [ assert (Hloop : forall grads dims nbs pw (acc : list bool) (lm : list tensor),
+              length dims = length grads -> Forall2 (fun nb (p : Z * Z) => snd p - fst p = Z.of_nat nb) nbs pw -> length nbs = length grads ->
+              py_for body (combine (combine (combine grads dims) (map Z.of_nat nbs)) pw) (acc, lm)
+              = Ret (acc ++ Masks.expand (map (fun g => negb (py_is_none g)) grads) nbs, lm));
+    [ clear; induction grads as [|g grads IH]; intros [|d dims] [|nb nbs] [|p pw] acc lm H1 H2 H3; try discriminate; try (inversion H2; fail);
+      [ cbn [combine map py_for Masks.expand]; rewrite app_nil_r; reflexivity
+      | inversion H2 as [|? ? ? ? Hp H2']; subst; cbn [combine map py_for Masks.expand]; unfold body at 1; destruct p as [b0 b1]; cbn [fst snd] in Hp; cbv zeta;
+        rewrite ?Hp, list_mul_repeat', ?if_same; cbn [bind]; rewrite (IH dims nbs pw) by (cbn [length] in *; try assumption; lia); rewrite <- app_assoc; reflexivity ]
+    | rewrite (Hloop grads dims nbs pw) by assumption; reflexivity ]
+  | assert (Hloop : forall grads dims nbs pw (acc : list bool) (lm : list tensor),
+              length dims = length grads -> Forall2 (fun nb (p : Z * Z) => snd p - fst p = Z.of_nat nb) nbs pw -> length nbs = length grads ->
+              py_for body (combine (combine grads dims) pw) (acc, lm)
+              = Ret (acc ++ Masks.expand (map (fun g => negb (py_is_none g)) grads) nbs, lm));
+    [ clear; induction grads as [|g grads IH]; intros [|d dims] [|nb nbs] [|p pw] acc lm H1 H2 H3; try discriminate; try (inversion H2; fail);
+      [ cbn [combine map py_for Masks.expand]; rewrite app_nil_r; reflexivity
+      | inversion H2 as [|? ? ? ? Hp H2']; subst; cbn [combine map py_for Masks.expand]; unfold body at 1; destruct p as [b0 b1]; cbn [fst snd] in Hp; cbv zeta;
+        rewrite ?Hp, list_mul_repeat', ?if_same; cbn [bind]; rewrite (IH dims nbs pw) by (cbn [length] in *; try assumption; lia); rewrite <- app_assoc; reflexivity ]
+    | rewrite (Hloop grads dims nbs pw) by assumption; reflexivity ] ].
 Qed.
 Print Assumptions gen_global_grad_selector_eq_model.
